@@ -121,8 +121,20 @@ def check_init(run, pkg, attrs, ex):
                 ok = okk if not (okk is False and tr.atoms) else None
             except Exception:
                 ok = None
+        wit_q = None
+        if ok is None and qv is not None:
+            # definite: the box lengths enter the wave-vector unit only through a reduction over the axes (max / min / mean / a
+            # single axis): one scalar spacing for all components, which is 2 pi / L of each axis only for cubic boxes
+            bl = [x for x in walk(qv) if x[0] == "attr" and x[2] == "boxlength"]
+            red = [x for x in walk(qv) if x[0] == "call" and x[1] in (".max", ".min", ".mean", "numpy.max", "numpy.min", "numpy.mean", "numpy.amax", "numpy.amin", "builtins.max", "builtins.min")
+                   and x[2] and x[2][0][0] == "attr" and x[2][0][2] == "boxlength"]
+            bare = [b for b in bl if not any(r[2][0] == b for r in red)]
+            if bl and red and not bare:
+                ok = False
+                wit_q = ("box 9 x 6 x 7.5: every component is scaled by 2 pi / 9 (one scalar from the box lengths) instead of 2 pi / L of its own axis - "
+                         "n = (0, 1, 0) gets q = 0.698 instead of 1.047; the vectors are not commensurate with the box")
         run.ob("R-ALG", fq, f"{arm}:qvector", ok, "q = integer vector * 2 pi / L, axis by axis (frame 0 box)", show(qv)[:120] if qv else "?",
-               witness=None if ok is not False else "wave vectors are not commensurate with the box axis by axis", loc=loc, sound=True)
+               witness=None if ok is not False else (wit_q or "wave vectors are not commensurate with the box axis by axis"), loc=loc, sound=True)
         qval = at.get("qvalue")
         from .grlib import is_rowwise_norm
         okq = True if (qv is not None and qval is not None and is_rowwise_norm(qval) == qv) else (eqv(qval, ("call", "numpy.linalg.norm", (qv,), (("axis", C(1)),))) if qv is not None else None)
@@ -219,7 +231,12 @@ def check_method(run, pkg, K, m, attrs, ex):
     Lp = it.loops[any_ev.loops[-1]]
     i = Lp.target
     okp = True if (Lp.iter == ("call", "builtins.range", (("attr", snap, "nparticle"),), ()) or ex(Lp.iter) == ("call", "builtins.range", (N_,), ())) else eqv(Lp.iter, ("call", "builtins.range", (("attr", snap, "nparticle"),), ()))
-    run.ob("R-LOOPDOM", fq, "particles", okp, "every particle of the frame contributes", show(Lp.iter)[:60], witness=None if okp else "particles skipped", loc=loc, sound=True)
+    wit_p = "particles skipped"
+    if okp is not True:
+        cov = block_coverage(it, Lp, snap, any_ev)
+        if cov is not None:
+            okp, wit_p = cov
+    run.ob("R-LOOPDOM", fq, "particles", okp, "every particle of the frame contributes", show(Lp.iter)[:60], witness=None if okp else wit_p, loc=loc, sound=True)
     medium = any_ev.data["value"]
     qv = ex(attrs["qvector"])
     thetas = ("call", ".sum", (("bin", "*", attrs_q(it), ("sub", ("sub", ("attr", snap, "positions"), i), ("tuple", (("mod", "numpy.newaxis"), ("slice", NONE, NONE, NONE))))),),
@@ -424,6 +441,42 @@ def check_dispatch(run, pkg, attrs):
     run.minimum("R-DISPATCH", 7)
 
 
+def block_coverage(it, Lp, snap, ev):
+    """A loop over blocks of particles: positions[lo(n):hi(n)] with integer-affine bounds in the block counter.  The set of
+    particle indices swept is enumerated on the extracted range and slice bounds for a few particle numbers; a particle that
+    is never (or twice) covered is a definite difference.  (verdict, witness) or None when the form is not a block loop."""
+    from .grlib import eval_int, Undecidable
+    n = Lp.target
+    Nt = ("attr", snap, "nparticle")
+    sl = None
+    for x in walk(ev.data["value"]):
+        if x[0] == "sub" and x[1] == ("attr", snap, "positions") and x[2][0] == "slice" and any(y == n for y in walk(x[2])):
+            sl = x[2]
+            break
+    if sl is None or not (Lp.iter[0] == "call" and Lp.iter[1] == "builtins.range"):
+        return None
+    try:
+        for N in (257, 100, 7, 300):
+            env = {Nt: N}
+            rng = range(*[eval_int(a, env) for a in Lp.iter[2]])
+            seen = [0] * N
+            for k in rng:
+                e2 = dict(env)
+                e2[n] = k
+                lo = 0 if sl[1] == NONE else eval_int(sl[1], e2)
+                hi = N if sl[2] == NONE else eval_int(sl[2], e2)
+                for j in range(N)[lo:hi]:
+                    seen[j] += 1
+            missed = [j for j, c in enumerate(seen) if c == 0]
+            twice = [j for j, c in enumerate(seen) if c > 1]
+            if missed or twice:
+                what = f"particles {missed[0]}..{missed[-1]} ({len(missed)} of {N}) never enter the density modes" if missed else f"{len(twice)} particles are counted twice"
+                return False, f"N = {N}: blocks {show(Lp.iter)[:40]} x positions[{show(sl)[:40]}]: {what}, but the sum is still normalised by N"
+    except (Undecidable, Exception):  # noqa
+        return None
+    return None
+
+
 def check_wavevector(run, pkg, ndim):
     q = "utils.wavevector.choosewavevector"
 
@@ -450,8 +503,26 @@ def check_wavevector(run, pkg, ndim):
         ok = True if L.iter == want_iter else (eqv(L.iter, loops[0].iter) if k > 0 else None)
         if ok is True and k > 0 and loops[0].iter != want_iter:
             ok = None
+        wit_ax = f"axis {k} covers {show(L.iter)[:50]}: the vector set is not symmetric between axes"
+        if L.iter[0] == "call" and L.iter[1] == "builtins.range" and len(L.iter[2]) == 2 and L.iter[2][0][0] == "phi" and L.iter != want_iter:
+            # a scan whose lower end depends on an option: every arm must still start at or below 0, otherwise vectors with a
+            # zero component along this axis - (n, 0[, 0]) and the like, part of the documented set [0, N/2] - are never generated
+            arms = []
+
+            def arms_of(x):
+                if x[0] == "phi":
+                    arms_of(x[2])
+                    arms_of(x[3])
+                else:
+                    arms.append(x)
+            arms_of(L.iter[2][0])
+            lows = [a[1] for a in arms if is_const(a) and isinstance(a[1], int)]
+            if any(v > 0 for v in lows):
+                ok = False
+                wit_ax = (f"with the option that selects the lower end {max(lows)} the scan of axis {k} starts above 0: vectors with a zero component along it, "
+                          f"e.g. {(3, 0) if ndim == 2 else (3, 4, 0)} -> norm {3 if ndim == 2 else 5}, are missing from the default wave-vector set")
         run.ob("R-LOOPDOM", fq, f"{ndim}D:axis{k}", ok, f"axis {k} runs over the same range(-nhalf, nhalf), nhalf = int(numofq/2)", show(L.iter)[:70],
-               witness=None if ok else f"axis {k} covers {show(L.iter)[:50]}: the vector set is not symmetric between axes", loc=fi.loc(L.node), sound=True)
+               witness=None if ok else wit_ax, loc=fi.loc(L.node), sound=True)
     okv = tuple(e.data["value"][1]) == tuple(lvs)
     run.ob("R-LOOPDOM", fq, f"{ndim}D:vector", True if okv else (False if (all(x in lvs for x in e.data["value"][1]) and len(set(e.data["value"][1])) < ndim) else None), "the stored vector is (loop variable of axis 0, 1[, 2]) in order", show(e.data["value"])[:60],
            witness=None if okv else "a loop variable is stored twice: one component never varies", loc=loc_of(it, e), sound=True)
